@@ -20,7 +20,7 @@ PROPS["C15"] = {
                 "(key text, 16-bit big-endian position, tuple order with None first, bisect_left with wrap-around), no Python is run"),
     "assumptions": ["crypto/md5.Sum is an uninterpreted function (same input => same digest) on symbolic inputs, and on every input in the order-independence and disruption obligations",
                     "the ring depends on positions only through their order and ties: counterexamples are replayed natively on strings whose real MD5 positions are order-isomorphic to the solver's (found by search)",
-                    "route level: destinations are not connected (net.Dial refused), the line is observed at the per-destination drop counter conn_down_no_spool"],
+                    "route level: destinations are not connected (net.Dial refused), the line is observed at the per-destination drop counter conn_down_no_spool; one obligation with 2 destinations connected to the endpoint model (same host:port, instances a / b) and a third (no instance) added"],
     "groups": [
         {"pkg": "route", "hdir": "route", "specs": [
             spec("C15/ring-position", "VerifC15RingPosition"),
@@ -34,6 +34,7 @@ PROPS["C15"] = {
             spec("C15/route/key=servers.web01.cpu.user", "VerifC15Route", {"key": "servers.web01.cpu.user"}),
             spec("C15/route-update-addr/key=foo.bar/inst=z", "VerifC15RouteUpdate", {"key": "foo.bar", "inst": "z"}),
             spec("C15/route-update-addr/key=a/no-inst", "VerifC15RouteUpdate", {"key": "a"}),
+            spec("C15/route-connected-destinations", "VerifC15RouteConnected"),
         ]},
         {"pkg": "route", "hdir": "route", "specs": [
             _c15_world("order", "VerifC15OrderIndependent", 2, 2),
